@@ -15,16 +15,14 @@ EXTENDS Values, Json, IOUtils
 
 Cases == JsonDeserialize(IOEnv.TRACE_FILE)
 
+\* Chains: the cases are walked in `Chains` independent strides so that TLC's workers share them
+CONSTANT Chains
 VARIABLE i
-Init == i = 1
-Next == i < Len(Cases) /\ i' = i + 1
+Init == i \in 1..Chains /\ i <= Len(Cases)
+Next == i + Chains <= Len(Cases) /\ i' = i + Chains
 Spec == Init /\ [][Next]_i
 
 B(b) == IF b THEN 1 ELSE 0
-
-InjectiveOn(f, v) ==
-  LET ids == {n.t : n \in {m \in BagToSet(Leaves(v)) : m.k # "fset"}}
-  IN \A a, b \in ids : a # b => f[a] # f[b]
 
 Verdict(c) ==
   LET V == FromJ(c.v)
@@ -35,11 +33,12 @@ Verdict(c) ==
       it == [j \in 1..Len(c.it) |-> FromJ(c.it[j])]
       vis == [j \in 1..Len(c.vis) |-> FromJ(c.vis[j])]
       devs == Devs(V)
-  IN <<B(ToBag(it) = Leaves(V)),
-       B(raised \/ ToBag(vis) = Leaves(V)),
+      L == Leaves(V)
+  IN <<B(ToBag(it) = L),
+       B(raised \/ ToBag(vis) = L),
        B(Unord(R) = Unord(want)),
        B(R = want),
-       B(raised \/ ~InjectiveOn(f, V) \/ Shape(R) = Shape(V)),
+       B(raised \/ ~Injective(f) \/ Shape(R) = Shape(V)),
        B(raised <=> devs # {}),
        SetToSeq(devs)>>
 
